@@ -21,6 +21,10 @@ const PLACEMENTS = {
   'delete-operand': (R) => `let ${R} = { x: 'U1' };\nfunction f(act) {\n  const v = $.p(act, 1) + $.p(act, 2);\n  delete ${R}.x;\n  const w = $.p(act, 3) + $.p(act, 4);\n  return v + w;\n}\nconst rd = () => ${R}.x;\nconst after = () => $.u('outer', rd());`,
   'concise-arrow-reads-outer': (R) => `let ${R} = 'U1';\nfunction f(act) {\n  const peek = () => ${R};\n  const v = $.p(act, 1) + $.p(act, 2);\n  $.u('peek', peek());\n  return v;\n}`,
   'concise-arrow-writes-outer': (R) => `let ${R} = 'U1';\nconst rd = () => ${R};\nfunction f(act) {\n  const poke = (x) => (${R} = x);\n  const v = $.p(act, 1) + $.u('poke', poke('U2')) + $.p(act, 2);\n  return v;\n}\nconst after = () => $.u('outer', rd());`,
+  'else-block-after-unbraced-consequent': (R) => `let ${R} = 'U1';\nfunction f(act) {\n  const v = $.p(act, 1) + $.p(act, 2);\n  if ($.u('c', 0)) v.length; else { $.u('read', ${R}); }\n  return v;\n}`,
+  'closure-in-else-block-after-unbraced-consequent': (R) => `let ${R} = 'U1';\nfunction f(act) {\n  const v = $.p(act, 1) + $.p(act, 2);\n  if ($.u('c', 0)) v.length; else if ($.u('d', 1)) { const g = () => ${R}; $.u('g', g()); }\n  return v;\n}`,
+  'argument-inside-rewritten-optional-chain': (R) => `let ${R} = 'U1234';\nfunction f(act) {\n  const s = $.p(act, 1);\n  const v = s?.trim().concat(${R}.length > 2 ? 'x' : 'y');\n  $.u('v', v.length > 0);\n  return $.p(act, 2) + $.p(act, 3);\n}`,
+  'base-of-rewritten-optional-chain': (R) => `let ${R} = 'U1';\nfunction f(act) {\n  const v = $.p(act, 1) + $.p(act, 2);\n  $.u('t', ${R}?.trim());\n  return v;\n}`,
   'property-name': (R) => `function f(act) {\n  const o = { ${R}: 'U1' };\n  const v = $.p(act, 1) + $.p(act, 2);\n  $.u('prop', o.${R});\n  return v;\n}`,
   'function-name-in-block': (R) => `function f(act) {\n  function ${R}() { return 'U1'; }\n  const v = $.p(act, 1) + $.p(act, 2);\n  $.u('call', typeof ${R} === 'function' ? ${R}() : ${R});\n  return v;\n}`,
   'class-name-in-block': (R) => `function f(act) {\n  class ${R} { static s() { return 'U1'; } }\n  const v = $.p(act, 1) + $.p(act, 2);\n  $.u('call', ${R}.s());\n  return v;\n}`,
@@ -55,7 +59,14 @@ function planH5 (rng, prefix0) {
   let lookalikeOnly = false
   if (variant >= 4 && rng.chance(1, 2)) { R = `__datadog_${prefix.replace(/[^A-Za-z0-9_$]/g, '_')}_${idx}`; lookalikeOnly = true }
   const strict = rng.chance(1, 2)
-  const body = PLACEMENTS[placement](R)
+  // the same identifier name spelled with a unicode escape (the parser turns it into the plain name)
+  let spelled = R
+  const sp = rng.below(5)
+  if (sp === 3) spelled = '\\u005f' + R.slice(1)
+  if (sp === 4) spelled = R.slice(0, 3) + '\\u0061' + R.slice(4) // the `a` of `__datadog`
+  const escaped = spelled !== R
+  // property names / labels / shorthand keep the plain spelling (an escape there changes nothing relevant)
+  const body = PLACEMENTS[placement](escaped && !['object-shorthand', 'property-name', 'label'].includes(placement) ? spelled : R)
   const text = `${strict ? "'use strict';\n" : ''}${body}\nmodule.exports = { f, after: typeof after === 'function' ? after : null };\n`
   // an earlier rewrite of the same process used another prefix (history: the refusal must not
   // depend on which configuration was used first)
